@@ -2994,3 +2994,118 @@ async fn nft_slip_cannot_be_spent_twice_in_one_block() {
 
     if !(!matches!(result, AddBlockResult::BlockAddedSuccessfully(..))) { witness(format!("block 3 was accepted as the tip although its transactions #{} and #{} both spend the Bound output {}-{}-{} (amount 1, in the utxoset once): an output spent twice inside one block; the utxoset now holds {} unspent Bound outputs of amount 1 for this NFT where there was 1 (Block::validate leaves Bound inputs out of its duplicate map, Block::generate closes its map after the first transaction)", spenders[0], spenders[1], slip1.block_id, slip1.tx_ordinal, slip1.slip_index, copies)); }
 }
+
+/// C18: the placeholders of a lite block suffice to recompute the commitment of the header: a browser node that compares the root accepts the honest lite block, neighbouring omissions included
+#[tokio::test]
+#[serial_test::serial]
+async fn browser_node_accepts_the_lite_block_its_server_builds() {
+    #[allow(unused_imports)] use crate::core::util::crypto::generate_keys;
+    #[allow(unused_imports)] use crate::core::util::test::test_manager::test::TestManager;
+    #[allow(unused_imports)] use crate::core::consensus::transaction::TransactionType;
+    #[allow(unused_imports)] use crate::core::consensus::block::Block;
+    #[allow(unused_imports)] use crate::core::consensus::block::BlockType;
+    #[allow(unused_imports)] use crate::core::util::crypto::hash;
+    use crate::core::util::configuration::{
+        BlockchainConfig, Configuration, ConsensusConfig, PeerConfig, Server,
+    };
+    #[derive(Debug)]
+    struct BrowserConfig {
+        consensus: ConsensusConfig,
+        blockchain: BlockchainConfig,
+        peers: Vec<PeerConfig>,
+    }
+    impl Configuration for BrowserConfig {
+        fn get_server_configs(&self) -> Option<&Server> {
+            None
+        }
+        fn get_peer_configs(&self) -> &Vec<PeerConfig> {
+            &self.peers
+        }
+        fn get_blockchain_configs(&self) -> &BlockchainConfig {
+            &self.blockchain
+        }
+        fn get_block_fetch_url(&self) -> String {
+            "".to_string()
+        }
+        fn is_spv_mode(&self) -> bool {
+            false
+        }
+        fn is_browser(&self) -> bool {
+            true
+        }
+        fn replace(&mut self, _config: &dyn Configuration) {}
+        fn get_consensus_config(&self) -> Option<&ConsensusConfig> {
+            Some(&self.consensus)
+        }
+    }
+    let browser = BrowserConfig {
+        consensus: ConsensusConfig {
+            genesis_period: 100,
+            heartbeat_interval: 100,
+            prune_after_blocks: 8,
+            max_staker_recursions: 3,
+            default_social_stake: 0,
+            default_social_stake_period: 60,
+        },
+        blockchain: BlockchainConfig::default(),
+        peers: vec![],
+    };
+
+    let mut t = TestManager::default();
+    t.initialize(10, 200_000_000_000).await;
+    let block1 = t.get_latest_block().await;
+    // the key the browser is interested in: it appears in no transaction of blocks 2 and 3
+    let browser_key = generate_keys().0;
+
+    // block 2 : one transaction
+    let someone = generate_keys().0;
+    t.transfer_value_to_public_key(someone, 500, block1.timestamp + 120000)
+        .await
+        .unwrap();
+    let block2 = t.get_latest_block().await;
+    assert_eq!(block2.id, 2);
+    assert_eq!(block2.transactions.len(), 1);
+
+    // block 3 : several transactions, none of them the browser's
+    let mut block3 = t
+        .create_block(block2.hash, block2.timestamp + 120000, 3, 1000, 0, false)
+        .await;
+    block3.generate().unwrap();
+    assert!(block3.transactions.len() >= 2);
+    t.add_block(block3).await;
+    let block3 = t.get_latest_block().await;
+    assert_eq!(block3.id, 3);
+
+    let blockchain = t.blockchain_lock.read().await;
+
+    // what the server sends for block 2 and what the browser makes of it
+    let lite2 = block2.generate_lite_block(vec![browser_key]);
+    let mut received2 =
+        Block::deserialize_from_net(&lite2.serialize_for_net(BlockType::Full)).unwrap();
+    received2.generate().unwrap();
+    assert_eq!(received2.hash, block2.hash);
+    assert_eq!(received2.transactions.len(), 1);
+    assert_eq!(received2.transactions[0].transaction_type, TransactionType::SPV);
+    assert_eq!(received2.transactions[0].txs_replacements, 1);
+    assert!(
+        received2
+            .validate(&blockchain, &blockchain.utxoset, &browser, &t.storage, false)
+            .await,
+        "setup : a lite block with a single placeholder validates on a browser node"
+    );
+
+    // the same for block 3 : two neighbouring transactions are left out and folded into one placeholder
+    let lite3 = block3.generate_lite_block(vec![browser_key]);
+    let mut received3 =
+        Block::deserialize_from_net(&lite3.serialize_for_net(BlockType::Full)).unwrap();
+    received3.generate().unwrap();
+    assert_eq!(received3.hash, block3.hash);
+    assert_eq!(received3.merkle_root, block3.merkle_root);
+    assert!(
+        received3.transactions.iter().filter(|tx| tx.transaction_type == TransactionType::SPV).count() >= 1,
+        "setup: block 3 has transactions left out"
+    );
+    if !(received3
+            .validate(&blockchain, &blockchain.utxoset, &browser, &t.storage, false)
+            .await) { witness(format!("a browser node must accept the honest lite block its server builds when two neighbouring transactions are left out : the root recomputed from its entries is not the root the header commits to")); }
+}
